@@ -662,6 +662,7 @@ pub fn worker(args: &[String]) {
         _ => {}
       }
       done += 1;
+      progress.set_done(done);
       idx += 1;
     } else {
       // jump to this shard's next block
